@@ -35,6 +35,9 @@ func DecryptData(key, data []byte, e etype.EType) ([]byte, error) {
 // EncryptMessage encrypts the message provided using the methods specific to the etype provided as defined in RFC 4757.
 // The encrypted data is concatenated with its RC4 header containing integrity checksum and confounder to create an encrypted message.
 func EncryptMessage(key, data []byte, usage uint32, export bool, e etype.EType) ([]byte, error) {
+	if len(key) != e.GetKeyByteSize() {
+		return []byte{}, fmt.Errorf("incorrect keysize: expected: %v actual: %v", e.GetKeyByteSize(), len(key))
+	}
 	confounder := make([]byte, e.GetConfounderByteSize()) // size = 8
 	_, err := rand.Read(confounder)
 	if err != nil {
@@ -58,6 +61,10 @@ func EncryptMessage(key, data []byte, usage uint32, export bool, e etype.EType) 
 // DecryptMessage decrypts the message provided using the methods specific to the etype provided as defined in RFC 4757.
 // The integrity of the message is also verified.
 func DecryptMessage(key, data []byte, usage uint32, export bool, e etype.EType) ([]byte, error) {
+	// The key must have the size of the etype's key (HMAC would take a key of any length).
+	if len(key) != e.GetKeyByteSize() {
+		return []byte{}, fmt.Errorf("incorrect keysize: expected: %v actual: %v", e.GetKeyByteSize(), len(key))
+	}
 	// The message must at least hold the checksum and a confounder.
 	if len(data) < e.GetHMACBitLength()/8+e.GetConfounderByteSize() {
 		return []byte{}, errors.New("ciphertext too short")
